@@ -18,7 +18,10 @@ import (
 	"io"
 	"log/slog"
 	"net/http"
+	"strconv"
+	"strings"
 	"sync"
+	"sync/atomic"
 
 	"github.com/magisterquis/curlrevshell/lib/opshell"
 	"golang.org/x/sync/errgroup"
@@ -39,7 +42,8 @@ type Broker struct {
 	key       string
 	cancelIn  func()
 	cancelOut func()
-	bidirKey  string /* Bidirectional sentinel key. */
+	bidirKey  string        /* Bidirectional sentinel key. */
+	bidirN    atomic.Uint64 /* Bidirectional connection counter. */
 	wg        sync.WaitGroup
 	noMore    bool
 
@@ -143,17 +147,26 @@ func (b *Broker) ConnectInOut(
 	w io.Writer,
 	r io.Reader,
 ) {
+	/* Both sides get the same key, which no other connection has, so
+	sides of different bidirectional connections can't end up paired. */
+	key := b.bidirKey + strconv.FormatUint(b.bidirN.Add(1), 10)
 	var wg sync.WaitGroup
 	wg.Add(2)
 	go func() {
 		defer wg.Done()
-		b.ConnectIn(ctx, sl, addr, w, b.bidirKey)
+		b.ConnectIn(ctx, sl, addr, w, key)
 	}()
 	go func() {
 		defer wg.Done()
-		b.ConnectOut(ctx, sl, addr, r, b.bidirKey)
+		b.ConnectOut(ctx, sl, addr, r, key)
 	}()
 	wg.Wait()
+}
+
+// isBidir returns true if key is the key for a side of a bidirectional
+// connection, as made by ConnectInOut.
+func (b *Broker) isBidir(key string) bool {
+	return strings.HasPrefix(key, b.bidirKey)
 }
 
 // connect makes sure we can use this stream.  It makes sure there's not
@@ -194,7 +207,7 @@ func (b *Broker) connect(
 	/* Make sure the previous shell isn't still disconnecting. */
 	if "" == b.key && (nil != *cancelUs || nil != *cancelOther) {
 		sl.Error(LMDisconnecting)
-		if key == b.bidirKey {
+		if b.isBidir(key) {
 			b.Errorf(
 				addr,
 				"Rejected %s side of bidirectional "+
@@ -217,7 +230,7 @@ func (b *Broker) connect(
 	/* Don't double-connect. */
 	if nil != *cancelUs {
 		sl.Error(LMAlreadyConnected)
-		if key == b.bidirKey {
+		if b.isBidir(key) {
 			b.Errorf(
 				addr,
 				"Rejected unexpected %s side of "+
@@ -245,7 +258,7 @@ func (b *Broker) connect(
 			LKKey, b.key,
 			LKIncorrectKey, key,
 		)
-		if key == b.bidirKey {
+		if b.isBidir(key) {
 			b.Errorf(
 				addr,
 				"Rejected %s side of bidirectonal "+
@@ -274,7 +287,7 @@ func (b *Broker) connect(
 
 	/* Note we've a new connection. */
 	sl.Info(LMNewConnection)
-	if key != b.bidirKey {
+	if !b.isBidir(key) {
 		b.Logf(addr, "%s connected: ID %q", dirT, key)
 	}
 
@@ -292,7 +305,7 @@ func (b *Broker) connect(
 
 	/* Actually do the proxy. */
 	ct := "connection"
-	if key == b.bidirKey {
+	if b.isBidir(key) {
 		ct = "side of bidirectional " + ct
 	}
 	msg := fmt.Sprintf("%s %s closed", dirT, ct)
@@ -301,7 +314,7 @@ func (b *Broker) connect(
 		b.Errorf(addr, "%s: %s", msg, err)
 	} else {
 		sl.Info(LMDisconnected)
-		if key != b.bidirKey {
+		if !b.isBidir(key) {
 			b.Errorf(addr, "%s", msg)
 		}
 	}
